@@ -1138,11 +1138,6 @@ impl TDigestView<'_> {
             return None;
         }
 
-        if self.centroids.len() == 1 {
-            return Some(self.centroids[0].mean);
-        }
-
-        // at least 2 centroids
         let centroids_weight = self.centroids_weight as f64;
         let num_centroids = self.centroids.len();
         let weight = rank * centroids_weight;
@@ -1152,6 +1147,13 @@ impl TDigestView<'_> {
         if weight > centroids_weight - 1. {
             return Some(self.max);
         }
+
+        // a single centroid (possibly holding several values, e.g. in a foreign image)
+        if self.centroids.len() == 1 {
+            return Some(self.centroids[0].mean);
+        }
+
+        // at least 2 centroids
         let first_weight = self.centroids[0].weight();
         if first_weight > 1. && weight < first_weight / 2. {
             return Some(
